@@ -239,7 +239,7 @@ theorem C11_unknown : ∀ row e, (row ≤ 1 ∨ e ∉ Reference.eccCodes) →
       have hrow : Generated.eccCountry.getD row [] ∈ Generated.eccCountry.take 2 ∨
           Generated.eccCountry.getD row [] = [] := by
         have : Generated.eccCountry.getD row [] = (Generated.eccCountry.take 2).getD row [] := by
-          simp [List.getD_eq_getElem?_getD, List.getElem?_take, show row < 2 by omega]
+          simp [List.getD_eq_getElem?_getD, show row < 2 by omega]
         rw [this]; exact tbl_getD_mem_or_default _ _ _
       rcases hrow with hrow | hrow
       · rcases tbl_getD_mem_or_default (Generated.eccCountry.getD row []) e 0 with hx | hx
@@ -257,7 +257,8 @@ theorem C11_unknown : ∀ row e, (row ≤ 1 ∨ e ∉ Reference.eccCodes) →
         · exact hz
         · exact absurd (List.contains_iff_mem.mp hz) hc
       · rw [hrow]; rfl
-  · simp [List.getD_eq_getElem?_getD, List.getElem?_eq_none hlen]
+  · have hnone : (Generated.eccCountry.getD row [])[e]? = none := List.getElem?_eq_none hlen
+    rw [List.getD_eq_getElem?_getD (l := Generated.eccCountry.getD row []), hnone]; rfl
 
 /-- the range contract assumed by the logic proofs, for both builds -/
 theorem eccOk (u : Bool) : RDS.EccOk ⟨Generated.cfg u, Generated.countryCount⟩ := by
@@ -412,14 +413,108 @@ theorem C18_iso_two_letters : ∀ a, 0 < a → a < Generated.countryCount →
   | none => rw [hs] at h; cases h
   | some s => rw [hs] at h; exact ⟨s, rfl, h⟩
 
+/-! ### distinct countries never share a code -/
+
+theorem tbl_clashesWith_complete (i c : Nat) (hc : c ≠ 0) :
+    ∀ (ds : List Nat) (k n : Nat), ds[n]? = some c → Reference.sameCountry i (k + n) = false →
+      (i, k + n) ∈ clashesWith i c ds k
+  | [], _, _, h, _ => by simp at h
+  | d :: ds, k, 0, h, hs => by
+    have hd : d = c := by simpa using h
+    subst hd
+    have hs' : Reference.sameCountry i k = false := by simpa using hs
+    simp [clashesWith, hc, hs']
+  | d :: ds, k, n + 1, h, hs => by
+    have ih := tbl_clashesWith_complete i c hc ds (k + 1) n (by simpa using h)
+      (by rwa [show k + 1 + n = k + (n + 1) by omega])
+    rw [show k + (n + 1) = k + 1 + n by omega]
+    unfold clashesWith
+    split
+    · exact List.mem_cons_of_mem _ ih
+    · exact ih
+
+theorem tbl_clashes_complete (c : Nat) (hc : c ≠ 0) :
+    ∀ (cs : List Nat) (b m n : Nat), m < n → cs[m]? = some c → cs[n]? = some c →
+      Reference.sameCountry (b + m) (b + n) = false → (b + m, b + n) ∈ clashes cs b
+  | [], _, _, _, _, h, _, _ => by simp at h
+  | _ :: _, _, _, 0, hmn, _, _, _ => by omega
+  | x :: cs, b, 0, n + 1, _, hm, hn, hs => by
+    have hx : x = c := by simpa using hm
+    subst hx
+    have h := tbl_clashesWith_complete b x hc cs (b + 1) n (by simpa using hn)
+      (by rwa [show b + 1 + n = b + (n + 1) by omega, ← Nat.add_zero b])
+    rw [show b + (n + 1) = b + 1 + n by omega, Nat.add_zero]
+    unfold clashes
+    exact List.mem_append_left _ h
+  | x :: cs, b, m + 1, n + 1, hmn, hm, hn, hs => by
+    have ih := tbl_clashes_complete c hc cs (b + 1) m n (by omega) (by simpa using hm)
+      (by simpa using hn)
+      (by rwa [show b + 1 + m = b + (m + 1) by omega, show b + 1 + n = b + (n + 1) by omega])
+    rw [show b + (m + 1) = b + 1 + m by omega, show b + (n + 1) = b + 1 + n by omega]
+    unfold clashes
+    exact List.mem_append_right _ ih
+
+/-- what a proved clash list says about the ISO lookup: two different in-range arguments with the
+same proper code (not "--") name the same country, unless the pair is in the list -/
+theorem tbl_iso_distinct_of_clashes {D : List (Nat × Nat)}
+    (h : isoClashes Generated.countryIso = D) :
+    ∀ i j, 0 < i → i < j → j < Generated.countryCount →
+      ∀ s, Generated.countryIso.getD i none = some s → Generated.countryIso.getD j none = some s →
+        s ≠ "--" → (i, j) ∉ D → Reference.sameCountry i j = true := by
+  intro i j h0 hij hj s hi hjs hne hD
+  have hcc : Generated.countryCount = 221 := rfl
+  have hlen := tbl_generated_lengths.2.2.2.1
+  -- the code of `s` is a proper one
+  obtain ⟨s', hs', hshape⟩ := C18_iso_two_letters i h0 (by omega)
+  rw [hi] at hs'
+  cases hs'
+  have hcode : Reference.isoCode s ≠ 0 := by
+    simp only [Reference.isoShape, Bool.or_eq_true, bne_iff_ne, beq_iff_eq] at hshape
+    rcases hshape with h1 | h1
+    · exact h1
+    · exact absurd h1 hne
+  -- position of argument `a` in the list of codes
+  have hidx : ∀ a, 0 < a → a < Generated.countryCount → Generated.countryIso.getD a none = some s →
+      (((Generated.countryIso.take Generated.countryCount).drop 1).map codeOf)[a - 1]? =
+        some (Reference.isoCode s) := by
+    intro a ha0 hac hsa
+    have hal : a < Generated.countryIso.length := by omega
+    have hget : Generated.countryIso[a]? = some (some s) := by
+      have := hsa
+      rw [List.getD_eq_getElem?_getD, List.getElem?_eq_getElem hal] at this
+      rw [List.getElem?_eq_getElem hal]
+      exact congrArg some (by simpa using this)
+    rw [List.getElem?_map, List.getElem?_drop, show 1 + (a - 1) = a by omega,
+      List.getElem?_take_of_lt hac, hget]
+    rfl
+  cases hsame : Reference.sameCountry i j with
+  | true => rfl
+  | false =>
+    exfalso
+    have hmem := tbl_clashes_complete (Reference.isoCode s) hcode _ 1 (i - 1) (j - 1) (by omega)
+      (hidx i h0 (by omega) hi) (hidx j (by omega) hj hjs)
+      (by rwa [show 1 + (i - 1) = i by omega, show 1 + (j - 1) = j by omega])
+    rw [show 1 + (i - 1) = i by omega, show 1 + (j - 1) = j by omega] at hmem
+    exact hD (h ▸ hmem)
+
 /-- the only pair of different countries sharing a code in the pinned library: Senegal (125) and
 El Salvador (164), both "SN" -/
 theorem C18_iso_distinct_deviations : isoClashes Generated.countryIso = [(125, 164)] :=
   eq_of_beq (by decide +kernel)
 
+/-- `C18_iso_distinct` for every pair except (Senegal, El Salvador) -/
+theorem C18_iso_distinct_except : ∀ i j, 0 < i → i < j → j < Generated.countryCount →
+    ∀ s, Generated.countryIso.getD i none = some s → Generated.countryIso.getD j none = some s →
+      s ≠ "--" → (i, j) ≠ (125, 164) → Reference.sameCountry i j = true := by
+  intro i j h0 hij hj s hi hjs hne hpair
+  exact tbl_iso_distinct_of_clashes C18_iso_distinct_deviations i j h0 hij hj s hi hjs hne
+    (by simpa using hpair)
+
 /-- the reference ISO codes themselves are shared only inside an alias class (the eight
 "Australia …" entries) -/
-theorem tbl_reference_iso_distinct : isoClashes isoExpected = [] := eq_of_beq (by decide +kernel)
+theorem tbl_reference_iso_distinct :
+    clashes ((Reference.countries.drop 1).map (fun r => Reference.isoCode r.2.2)) 1 = [] :=
+  eq_of_beq (by decide +kernel)
 
 /-! ## axioms -/
 
@@ -458,6 +553,7 @@ theorem tbl_reference_iso_distinct : isoClashes isoExpected = [] := eq_of_beq (b
 #print axioms C18_country_iso_except
 #print axioms C18_iso_two_letters
 #print axioms C18_iso_distinct_deviations
+#print axioms C18_iso_distinct_except
 #print axioms tbl_reference_iso_distinct
 
 end RDS
